@@ -652,6 +652,10 @@ func init() {
 	campaigns["C09"] = func(r *Result) {
 		r.Rule = "random plans (1-2 blocks, 1-3 sequences, 1-2 actions, optional check groups, retries 0-2, failing actions, action-only outcome scripts) executed once on a recording vault; for EVERY prefix of the durable write sequence a fresh store is built (Create + prefix) and a new Workstream recovers it; second cuts inside recovery runs on a subset; monitors: no plugin call for a sequence action with a durable result, no re-run of a durably terminal sequence/block/plan, only NotStarted or in-flight actions are invoked; non-trivial = cut strictly inside the run; distinct by (spec, cut[, cut2])"
 		crashCampaign("C09", r, 40, 2000, true)
+		// function-level tie of the repair itself: fixAction / fixSeq / fixChecks on arbitrary object states vs Model/Fix, Model/FixFull
+		fixDiffCampaign(r, 3000, 150000)
+		r.Validated = r.Evaluations
+		r.Notes = append(r.Notes, "includes the function-level differential of fixAction/fixSeq/fixChecks (hook coercion.VerifFix*, harness/fixdiff_test.go): random object states incl. Stopped and unended attempts, complete images compared with Model/Fix.fixAction, Model/FixFull.fixSeqFull, Model/FixFull.fixChecks")
 	}
 	campaigns["C10"] = func(r *Result) {
 		r.Rule = "same crash enumeration as C09 (every write prefix; double crashes on a subset); monitors: the recovered plan reaches Completed/Failed within the watchdog, nothing is left Running in the store, deferred checks of entered non-bypassed scopes have a verdict, and (scripts being action-only, configuration schedule-independent) plan/block/sequence statuses equal those of the uninterrupted run; non-trivial = cut strictly inside the run; distinct by (spec, cut[, cut2])"
